@@ -408,7 +408,6 @@ def XProgram.acceptedWith (ce : Bool) (p : XProgram) : Bool :=
     && checkXBlock p.funcs (Pou.mk none [] p.instCtx p.aggs) ce (p.decls.map fun d => (d.name, d.ty)) [] false p.body
     && p.body.lowerable
 
-def XProgram.accepted (p : XProgram) : Bool := p.acceptedWith false
-def XProgram.acceptedFixed (p : XProgram) : Bool := p.acceptedWith true
+def XProgram.accepted (p : XProgram) : Bool := p.acceptedWith true
 
 end TrustVerif.StExt
